@@ -223,6 +223,13 @@ def sc_tables(V, P, cfg):
     nx, ny, nz = n
     size = [V.real("unitx", positive=True, default=0.5), V.real("unity", positive=True, default=1.25),
             V.real("unitz", positive=True, default=2.0)]
+    # process history: another grid with the same number of elements was built and queried first (tables of one
+    # domain must not depend on other DomainDefinition objects)
+    d_other = DomainDefinition(ny, nx, unitx=size[1], unity=size[0]) if dim == 2 else \
+        DomainDefinition(nz, nx, ny, unitx=size[2], unity=size[0], unitz=size[1])
+    for ndof in cfg["ndof"]:
+        d_other.get_dofconnectivity(ndof)
+    d_other.get_node_position()
     if dim == 2:
         d = DomainDefinition(nx, ny, unitx=size[0], unity=size[1])
     else:
@@ -421,6 +428,11 @@ def replay(cfg, label, env, case):
                                                  inputs=_inputs(V, env)))
     fails = LAST["chk"].fails if "chk" in LAST else {}
     missing = [k for k in V.requested if k not in env]
+    if missing and label in fails:
+        # the clause fails on the real code for the model's values completed with the defaults of the scenario
+        # (a clause about concrete tables does not depend on the symbolic indices at all): a genuine reproduction
+        return dict(reproduced=True, detail=dict(clause=label, observed=fails[label], inputs=_inputs(V, env),
+                                                 defaults_used_for=missing[:8]))
     if missing:          # no witness from the solver (e.g. a path kept after an `unknown` feasibility answer):
         return dict(reproduced=False, detail="model has no value for %s; nothing to replay" % missing[:6])
     if label.startswith("exception:"):
